@@ -39,7 +39,7 @@ from typing import Dict, List, Optional, Set, Tuple
 from sa import e7, sqlx
 from sa.callgraph import callgraph
 from sa.checks.c26 import CODE_RE, load_catalogue
-from sa.core import AnalysisError, Finding, FuncInfo, Program, Report, program, src, walk_no_nested
+from sa.core import AnalysisError, Finding, FuncInfo, Program, Report, norm_locals, program, src, walk_no_nested
 
 EXEC = "vtlengine.duckdb_transpiler.io._execution"
 TR = "vtlengine.duckdb_transpiler.Transpiler.SQLTranspiler"
@@ -413,6 +413,8 @@ def run(rep: Report, tier: str) -> None:
         rep.exemption("R32.3", k, why)
     rep.analysed = {"mapper_branches": len(dl), "error_writers": len(writers), "execute_sites": nsites, "reachable_functions": len(reach2),
                     "ast_node_classes": nvis, "bare_raise_sites": nraise}
+    rep.rule("R32.8", "the error mappers cannot fail themselves: partial operations on the engine's message are guarded")
+    mapper_partial_operations(P, rep, "R32.8")
     # ---- R32.7 every dataset a statement reads is scheduled for loading: the dependency analysis does not carry aliases across statements ----
     rep.rule("R32.7", "dependency analysis: per-statement state (join aliases) is reset between statements - a dataset hidden by a stale alias is never loaded and the run ends in a raw CatalogException")
     from sa.checks.c12 import per_statement_state
@@ -675,3 +677,59 @@ def _installer_view(P: Program, rep: Report) -> None:
         if body.count("(") != body.count(")"):
             rep.add(Finding("R32.6", f"R32.6/truncated/{name}", rel, f.node.lineno, f.qualname,
                             f"the installer's text of {name} is not parenthesis-balanced: the splitter cut the statement at a `;` inside a comment or string literal, so installing it is a raw ParserException"))
+
+
+def mapper_partial_operations(P: Program, rep: Report, rule: str) -> None:
+    """The functions that turn an engine error into a VTL error run INSIDE the except handler: an exception of their own replaces the
+    VTL error by a raw Python one.  Operations on the engine's message that are partial - indexing the result of re.findall / a
+    regex `.groups()`, `.group()` applied directly to re.search / re.match (None when nothing matches), `.split(...)[k]` with k >= 1,
+    `.index(...)`, int()/float() of a slice of the message - must sit in a try block or under a test of the value they depend on."""
+    mappers = [f for f in P.iter_functions() if f.module.name.startswith("vtlengine.duckdb_transpiler") and f.cls is None
+               and (f.name in ("map_duckdb_error", "_map_query_error", "_map_load_error") or f.name.startswith("_map_") and "error" in f.name)]
+    if len(mappers) < 2:
+        raise AnalysisError(f"{rule}: error mapper functions (map_duckdb_error, _map_query_error) not found")
+    n = 0
+    for f in mappers:
+        parents: Dict[int, ast.AST] = {}
+        for x in ast.walk(f.node):
+            for ch in ast.iter_child_nodes(x):
+                parents[id(ch)] = x
+
+        def guarded(x: ast.AST, dep: str) -> bool:
+            cur = parents.get(id(x))
+            while cur is not None and cur is not f.node:
+                if isinstance(cur, ast.Try):
+                    return True
+                if isinstance(cur, (ast.If, ast.IfExp)) and dep and dep in src(cur.test):
+                    return True
+                cur = parents.get(id(cur))
+            return False
+        for x in walk_no_nested(f.node):
+            bad = None
+            dep = ""
+            if isinstance(x, ast.Subscript) and isinstance(x.slice, ast.Constant) and isinstance(x.slice.value, int) and isinstance(x.value, ast.Call):
+                c = x.value
+                cn = src(c.func)
+                if cn in ("re.findall",) or (isinstance(c.func, ast.Attribute) and c.func.attr in ("findall", "groups")):
+                    bad = f"`{src(x)[:70]}` indexes the list of matches"
+                elif isinstance(c.func, ast.Attribute) and c.func.attr in ("split", "rsplit", "partition") and x.slice.value not in (0, -1):
+                    bad = f"`{src(x)[:70]}` takes part {x.slice.value} of a split"
+            elif isinstance(x, ast.Call) and isinstance(x.func, ast.Attribute) and x.func.attr in ("group", "groups", "start", "end", "span") and isinstance(x.func.value, ast.Call) \
+                    and src(x.func.value.func) in ("re.search", "re.match", "re.fullmatch"):
+                bad = f"`{src(x)[:70]}` uses the match object without testing it"
+            elif isinstance(x, ast.Call) and isinstance(x.func, ast.Attribute) and x.func.attr == "index" and isinstance(x.func.value, (ast.Name, ast.Call)) and x.args:
+                bad = f"`{src(x)[:70]}` raises ValueError when the text is absent"
+                dep = src(x.args[0])
+            if isinstance(x, ast.Call) and isinstance(x.func, ast.Attribute) and x.func.attr in ("group", "groups") and isinstance(x.func.value, ast.Name):
+                n += 1
+                rep.instance(rule, f"mapper-partial/{f.name}/{norm_locals(src(x), f.node)[:40]}", nontrivial=True)
+                if not guarded(x, x.func.value.id):
+                    bad = f"`{src(x)[:70]}` uses a match object that is not tested on this path"
+            if bad is None:
+                continue
+            n += 1
+            if not guarded(x, dep or "\0"):
+                rep.add(Finding(rule, f"{rule}/mapper-partial/{f.qualname}/{norm_locals(src(x), f.node)[:50]}", f.module.rel, x.lineno, f.qualname,
+                                f"{bad} inside the error mapper {f.name}: when the engine's message has another shape the mapper itself raises (IndexError / AttributeError / ValueError) "
+                                f"and that raw Python error replaces the VTL error the caller should get"))
+    rep.instance(rule, "mapper-partial-operations", nontrivial=False, sample={"mappers": [f.qualname for f in mappers], "partial operations examined": n})
